@@ -152,6 +152,59 @@ func genFS() {
 			}
 			l.defStrList("stmtsDirfs_"+fn, stmts)
 		}
+		// the constructor's pass that fills the overlay from what is already in the directory (a second use of a work
+		// directory): the walk call with its root argument (the function literal elided), the definition of that root
+		// when it is a local, and the callback statement by statement (which kinds become which overlay calls, with
+		// which permission bits).  The root decides whether a directory named through a symbolic link is entered:
+		// fs.WalkDir(os.DirFS(dir), ".") opens dir/. (followed), filepath.WalkDir(dir) lstats dir (not followed).
+		{
+			var walk, cb []string
+			if fd := f.fn("DirFS"); fd == nil {
+				problem("rwosfs.go: func DirFS not found")
+			} else {
+				var calls []*ast.CallExpr
+				ast.Inspect(fd.Body, func(n ast.Node) bool {
+					if ce, ok := n.(*ast.CallExpr); ok {
+						if se, ok := ce.Fun.(*ast.SelectorExpr); ok && strings.HasPrefix(se.Sel.Name, "Walk") {
+							calls = append(calls, ce)
+						}
+					}
+					return true
+				})
+				if len(calls) != 1 {
+					problem("rwosfs.go: DirFS: expected exactly one Walk* call, found %d", len(calls))
+				}
+				for _, ce := range calls {
+					var args []string
+					for _, a := range ce.Args {
+						if fl, ok := a.(*ast.FuncLit); ok {
+							args = append(args, "func")
+							for _, st := range fl.Body.List {
+								cb = append(cb, f.src(st))
+							}
+							continue
+						}
+						args = append(args, f.src(a))
+						// a local root: its definition belongs to the fact
+						if id, ok := a.(*ast.Ident); ok {
+							ast.Inspect(fd.Body, func(n ast.Node) bool {
+								if as, ok := n.(*ast.AssignStmt); ok {
+									for _, lh := range as.Lhs {
+										if li, ok := lh.(*ast.Ident); ok && li.Name == id.Name {
+											walk = append(walk, f.src(as))
+										}
+									}
+								}
+								return true
+							})
+						}
+					}
+					walk = append(walk, f.src(ce.Fun)+"("+strings.Join(args, ", ")+")")
+				}
+			}
+			l.defStrList("dirfsCtorWalk", walk)
+			l.defStrList("dirfsCtorCallback", cb)
+		}
 		for _, fn := range []string{"dirFS.OpenFile", "dirFS.Stat", "dirFS.open"} {
 			if f.fn(fn) != nil {
 				hashFn("pkg/apk/fs/rwosfs.go", fn)
